@@ -115,6 +115,8 @@ func runC18(c *Ctx, r *Report) {
 	r.Rule("C18.R4", "the write error is not masked: in AutoSave, State.SaveGlobals and Environment.SaveGlobals a deferred closure stores into a captured error result only under `result == nil`")
 	r.Rule("C18.R5", "no write error is dropped on the auto-save path: in AutoSave, the SaveGlobals functions and every module function they hand the writer to, every call that takes an io.Writer and returns an error has that error used")
 	c.checkSaveErrorsUsed(r, "C18.R5")
+	r.Rule("C18.R6", "the state file is read whole: the line scanner of repl.AutoLoad is given math.MaxInt as its line limit on every path (named functions are saved whatever their length)")
+	c.checkAutoLoadReadsWholeLines(r, "C18.R6")
 	r.Rule("C18.R3", "after the rename no further file mutation happens in AutoSave; no file-mutating call precedes CreateTemp")
 
 	autoSave := c.Fn("repl", "AutoSave")
